@@ -1815,7 +1815,9 @@ class OR(LogicalOperator, ABC):
             if when_false or (when_false is None):
                 # the right side is tried for this row: what it tests and what it concludes on tells rows apart.
                 required_vars.update(self.right._unique_variables_)
-                for conc in self.right._conclusion_:
+                # all conclusions below the right side: those of a selector (a refined alternative) are only attached to
+                # the selector itself while it is being evaluated.
+                for conc in [*self.right._conclusion_, *self.right._conclusions_of_all_descendants_]:
                     required_vars.update(conc._unique_variables_)
                 when_iam = None
             else:
@@ -1823,11 +1825,11 @@ class OR(LogicalOperator, ABC):
             if self._parent_:
                 required_vars.update(self._parent_._required_variables_from_child_(self, when_iam))
             if when_true or (when_true is None):
-                for conc in self.left._conclusion_:
+                for conc in [*self.left._conclusion_, *self.left._conclusions_of_all_descendants_]:
                     required_vars.update(conc._unique_variables_)
         elif child is self.right:
             if when_true or (when_true is None):
-                for conc in self.right._conclusion_:
+                for conc in [*self.right._conclusion_, *self.right._conclusions_of_all_descendants_]:
                     required_vars.update(conc._unique_variables_)
             if self._parent_:
                 required_vars.update(self._parent_._required_variables_from_child_(self, when_true))
